@@ -21,7 +21,7 @@ import vlib  # noqa: E402
 
 BATCH = 400
 CASE_LIMIT = {}      # (pid or sub) -> seconds one case may take (default 240)
-MAX_HANGS = 6        # after that many cases that did not return, the remaining cases of the check are not run
+MAX_HANGS = 3        # after that many cases that did not return, the remaining cases of the check are not run
 HANGS = [0]
 
 
